@@ -272,7 +272,7 @@ PROPS["C13"]["thorough_engines"] = PROPS["C13"]["thorough_engines"] + [replay_en
 PROPS["C18"]["fallback"] = PROPS["C18"]["fallback"] + [script_engine("cli_argv.py", "cli_argv", "C18.bounded.cli_child_and_shell_argv",
     "the real binary: without a shell (-n, --shell=none) the child receives every argument byte for byte for 52 argument lists over 15 awkward strings (empty, spaces, quotes, $, *, newline, multi-byte, leading dashes); with --shell=<prog [options]> the shell is invoked as <options..> -c \"<words joined by one space>\" (6 cases)")]
 PROPS["C18"]["thorough_engines"] = PROPS["C18"]["fallback"]
-PROPS["C08"]["thorough_engines"] = PROPS["C08"]["fallback"]
+PROPS["C08"]["thorough_engines"] = PROPS["C08"]["fallback"] + [_hist("lib", "same_id_twice_in_one_action_is_one_job", "C08", "get_or_create_job(id) twice within one action yields one job; no process it started survives the graceful quit (D20)")]
 PROPS["C20"]["thorough_engines"] = [replay_engine("ignorefiles", "origins_markers_bounded", "C20.bounded.origins_and_types_equal_the_documented_tables",
     "the real project-origins crate on one 4-level chain: each of the 53 documented markers as a file and as a directory at each level (424 placements, started from the leaf and from above the marker) plus 52 two-marker placements: origins() returns exactly the marked directories of the chain, types() exactly the documented types; every ProjectType is VCS xor software")]
 _STREAM = "3 seeded streams of 80 events sent to the real library (every priority, pass / reject / error verdicts, empty events, gaps from 0 to 2 x the 120 ms throttle): "
